@@ -17,7 +17,7 @@ import (
 func init() { registerLeg("c13-entry", "C13", legC13Entry) }
 
 func legC13Entry(c *Ctx) {
-	c.Rule("patterns with a cheap branch and a branch needing backtracking depth proportional to the text (`,|(?:ab)+c`, `\\d|(?:ab?)*c`, `(;)|(?:[ab]b?)+!`, their right-to-left mirrors, a capture-bearing variant) x texts made of k cheap matches before/after/between deep stretches of 0..200 repetitions (random order) x L in {0..64 sampled, 65, 100, 129, 200, 257, 400, 1000, default, -1} x {FindAllStringIndex, FindAllRunesIndex, Replace, ReplaceFunc, Split with count -1 and 3, FindStringMatch+FindNextMatch chain, MatchString}: result == unlimited result, or error == ErrBacktrackingStackLimit; raising L never turns a success into an error; never a panic; non-trivial = the limit struck after at least one match had been produced (distinct by pattern,text,L,entry)")
+	c.Rule("patterns with a cheap branch and a branch needing backtracking depth proportional to the text (`,|(?:ab)+c`, `\\d|(?:ab?)*c`, `(;)|(?:[ab]b?)+!`, their right-to-left mirrors, a capture-bearing variant) x texts made of k cheap matches before/after/between deep stretches of 0..200 repetitions (random order) x L in {0..64 sampled, 65, 100, 129, 200, 257, 400, 1000, default, -1} x {MatchString first, then FindAllStringIndex, a FindStringMatch+FindNextMatch chain, FindAllRunesIndex, Replace, ReplaceFunc, Split with count -1 and 3, MatchString again — all on ONE Regexp per limit, so that pooled runners and the bool-only program are shared between the calls; two patterns have many unreferenced groups inside a loop}: result == unlimited result, or error == ErrBacktrackingStackLimit; raising L never turns a success into an error; never a panic; non-trivial = the limit struck after at least one match had been produced (distinct by pattern,text,L,entry)")
 	type spec struct {
 		pat   string
 		rtl   bool
@@ -31,9 +31,13 @@ func legC13Entry(c *Ctx) {
 		{`,|c(?:ab)+`, true, []string{",", "1,", "x,y"}, func(n int) string { return "c" + strings.Repeat("ab", n) }},
 		{`(\d)|c(?:ab?)*`, true, []string{"7", " 8 ", "x9"}, func(n int) string { return "c" + strings.Repeat("ab", n) }},
 		{`(?<s>-)|(?:(a)|b)+\.`, false, []string{"-", "z-", "--"}, func(n int) string { return strings.Repeat("ab", n) + "." }},
+		// many capture groups nobody refers to, inside a loop: the bool-only program of this pattern is much smaller than
+		// the full one, and one pooled runner serves both
+		{`^(?:(a)(b)(c)(d)(e)(f)(g)(h)(i)(j))*$`, false, []string{"", "", "abcdefghij"}, func(n int) string { return strings.Repeat("abcdefghij", n/4) }},
+		{`(?:(a)(b)(c)(d)(e)(f)|(x))+;`, false, []string{"x;", ";", "abcdef;"}, func(n int) string { return strings.Repeat("abcdef", n/3) + ";" }},
 	}
 	limits := []int{0, 1, 2, 3, 5, 8, 13, 21, 32, 33, 48, 64, 65, 100, 129, 200, 257, 400, 1000, -1, -2}
-	entries := []string{"FindAllStringIndex", "FindAllRunesIndex", "Replace", "ReplaceFunc", "Split", "Split3", "chain", "MatchString"}
+	entries := []string{"MatchString", "FindAllStringIndex", "chain", "FindAllRunesIndex", "Replace", "ReplaceFunc", "Split", "Split3", "MatchString"}
 	call := func(re *regexp2.Regexp, entry, text string) (out string, err error, produced int) {
 		defer func() {
 			if p := recover(); p != nil {
@@ -111,8 +115,18 @@ func legC13Entry(c *Ctx) {
 				} else {
 					sb.WriteString("1" + sp.cheap[0] + "2" + sp.cheap[0] + sp.deep(200))
 				}
+				if strings.HasPrefix(sp.pat, "^") {
+					sb.Reset()
+					sb.WriteString(sp.deep(40))
+				}
 			}
 			text := sb.String()
+			// one Regexp per limit serves all entry points in turn, the bool-only one first (the Regexp "stays fully usable":
+			// pooled runners and programs are shared between the calls)
+			shared := map[int]*regexp2.Regexp{}
+			for _, L := range limits {
+				shared[L] = compile(sp, L)
+			}
 			for _, entry := range entries {
 				ref, rerr, _ := call(compile(sp, -1), entry, text)
 				if rerr != nil || strings.HasPrefix(ref, "PANIC") {
@@ -124,7 +138,7 @@ func legC13Entry(c *Ctx) {
 					if L >= 0 && L <= 64 && L != 0 && c.Rng.Chance(40) && t != 0 {
 						continue
 					}
-					got, err, produced := call(compile(sp, L), entry, text)
+					got, err, produced := call(shared[L], entry, text)
 					cs := &Case{Desc: fmt.Sprintf("pattern %q rtl=%v text %q L=%d %s", sp.pat, sp.rtl, text, L, entry), Key: fmt.Sprintf("%s|%v|%s|%d|%s", sp.pat, sp.rtl, text, L, entry), Class: entry}
 					switch {
 					case strings.HasPrefix(got, "PANIC"):
